@@ -140,6 +140,9 @@ func (vc *VC) verifyBody() {
 	if exit == nil {
 		return
 	}
+	// vacuity canary: `false` must not be provable at the (reachable) exit
+	vc.canary = &Obligation{Name: fi.Key + "/canary", Func: fi.Key, Kind: "canary", Pos: vc.prog.pos(fi.Decl.Pos()),
+		DeclN: len(vc.decls), TraceN: len(vc.trace), PC: exit.pc, Goal: "false"}
 	if fi.Spec == nil {
 		return
 	}
